@@ -469,6 +469,7 @@ func (e *Engine) runPath(x *Explorer, s *Solver, entry *ssa.Function, prefix []D
 		prefix:    prefix,
 		globals:   map[*ssa.Global]*Object{},
 		initDone:  map[*ssa.Package]bool{},
+		initBroken: map[*ssa.Package]bool{},
 		inputSeen: map[string]int{},
 		locks:     map[string]*lockState{},
 		sides:     map[string]Value{},
